@@ -28,6 +28,10 @@ Theorem C12_appends_concatenate h m chunks rows0 :
   = Some (mk_tbl h m (rows0 ++ concat chunks)).
 Proof. exact (appends_concat h m chunks rows0). Qed.
 
+(* overwrite=True together with append=True replaces the table: reading back yields the table just written *)
+Theorem C12_overwrite_and_append t s : write true true t s = (Some t, WOk).
+Proof. exact (write_both_flags t s). Qed.
+
 (* a refused write does not alter the file *)
 Theorem C12_refused_unchanged ow app t s s' r : write ow app t s = (s', r) -> r <> WOk -> s' = s.
 Proof. exact (refused_unchanged ow app t s s' r). Qed.
@@ -64,6 +68,7 @@ Print Assumptions C12_append.
 Print Assumptions C12_header_compatibility_is_equality.
 Print Assumptions C12_fewer_columns_incompatible.
 Print Assumptions C12_appends_concatenate.
+Print Assumptions C12_overwrite_and_append.
 Print Assumptions C12_refused_unchanged.
 Print Assumptions C12_slice_rows.
 Print Assumptions C12_contiguous_range.
